@@ -321,6 +321,7 @@ let nth_perm (l : 'a list) (idx : int) : 'a list =
 
 (* the order of the optimiser's ordered maps is Model/Order.v's rust_ord (extracted) *)
 let all_orders = ref false
+let want_why = ref false
 
 let leaf_budget = ref 720
 
@@ -527,6 +528,34 @@ let run_case (x : sx) : unit =
                   let sws = { sw_coalesce = sw land 1 <> 0; sw_shake = sw land 2 <> 0;
                               sw_rewrite = sw land 4 <> 0; sw_matrix = sw land 8 <> 0 } in
                   if (not r.r_optimised) && c01_scope_wide o rust_ord sws r.r_det then Buffer.add_string tb (Printf.sprintf " %d" sw)) sws;
+              (* --why: which conjunct of the scope predicate fails (diagnostic, tools/scope_why.py) *)
+              if !want_why && not r.r_optimised then
+                List.iter (fun sw ->
+                    let sws = { sw_coalesce = sw land 1 <> 0; sw_shake = sw land 2 <> 0;
+                                sw_rewrite = sw land 4 <> 0; sw_matrix = sw land 8 <> 0 } in
+                    if not (c01_scope_wide o rust_ord sws r.r_det) then begin
+                      let s0 = sw_without_matrix sws in
+                      let tags = ref [] in
+                      let tag b t = if not b then tags := t :: !tags in
+                      if s0.sw_shake then begin
+                        let ts = all_trees (staged s0 r.r_det) in
+                        tag (List.for_all sh0 ts) "sh0";
+                        tag (List.for_all no_dneg ts) "dneg";
+                        tag (List.for_all shx ts) "shx";
+                        tag (not (known_d16 rust_ord s0 r.r_det)) "d16";
+                        tag (run_safe rust_ord s0 r.r_det) "run_safe"
+                      end;
+                      if sws.sw_matrix then begin
+                        let pm = pre_matrix o rust_ord sws r.r_det in
+                        tag (not (known_d17 o rust_ord sws r.r_det)) "d17";
+                        tag (not (known_d16 rust_ord sws r.r_det)) "d16m";
+                        tag (List.for_all cmp_reads (all_trees pm)) "cmp_reads";
+                        tag (match_safe rust_ord false (shake_fuel (fst pm)) (fst pm)
+                             && List.for_all (fun (_, b) -> List.for_all (fun m -> match_safe rust_ord (body_neg pm) (shake_fuel m) m) (entry_trees b)) (snd pm)) "match_safe";
+                        tag (sws.sw_coalesce || no_match (fst pm)) "no_match"
+                      end;
+                      Buffer.add_string tb (Printf.sprintf ") (why %d %s" sw (String.concat " " (List.rev !tags)))
+                    end) sws;
               known_extra := Printf.sprintf " (k%s) (th%s)" (Buffer.contents kb) (Buffer.contents tb)
             end;
             if dec_bool f_validate then begin
@@ -579,7 +608,7 @@ let case_id (x : sx) : string =
   | _ -> "?"
 
 let () =
-  Array.iter (fun a -> if a = "--ic" then ic := true; if a = "--known" then want_known := true; if a = "--all-orders" then all_orders := true; if a = "--spec" then want_spec := true) Sys.argv;
+  Array.iter (fun a -> if a = "--ic" then ic := true; if a = "--known" then want_known := true; if a = "--all-orders" then all_orders := true; if a = "--why" then want_why := true; if a = "--spec" then want_spec := true) Sys.argv;
   let out = stdout in
   (try
      while true do
